@@ -661,7 +661,7 @@ func (r *Run) exec(g *Goroutine, fr *Frame, in ssa.Instruction) {
 		default:
 			tv := make(TupleV, len(x.Results))
 			for i, v := range x.Results {
-				tv[i] = r.get(fr, v)
+				tv[i] = r.lateLoad(fr, v, x)
 			}
 			res = tv
 		}
@@ -848,6 +848,58 @@ func (r *Run) execTypeAssert(fr *Frame, x *ssa.TypeAssert) {
 		panic(goPanic{kind: "assert", msg: fmt.Sprintf("interface conversion: interface is %s, not %s", dyn, x.AssertedType)})
 	}
 	r.set(fr, x, res)
+}
+
+// lateLoad resolves an evaluation order the Go specification leaves open the
+// way the gc compiler does: in an operand list such as `return x, f(&x)` the
+// plain variable x is read after all calls of the statement. go/ssa emits the
+// load of x before the call; if operand v is such a load of a local variable
+// in the same block as the using instruction, with no store to the variable
+// in between but a call, the variable is read again at the use.
+func (r *Run) lateLoad(fr *Frame, v ssa.Value, at ssa.Instruction) Value {
+	switch w := v.(type) {
+	case *ssa.ChangeType:
+		if w.Block() == at.Block() {
+			return r.lateLoad(fr, w.X, at)
+		}
+	case *ssa.MakeInterface:
+		if w.Block() == at.Block() {
+			return IfaceV{t: w.X.Type(), v: r.lateLoad(fr, w.X, at)}
+		}
+	}
+	u, ok := v.(*ssa.UnOp)
+	if !ok || u.Op != token.MUL || u.Block() != at.Block() {
+		return r.get(fr, v)
+	}
+	al, ok := u.X.(*ssa.Alloc)
+	if !ok {
+		return r.get(fr, v)
+	}
+	seen, call := false, false
+	for _, in := range u.Block().Instrs {
+		if in == ssa.Instruction(u) {
+			seen = true
+			continue
+		}
+		if !seen {
+			continue
+		}
+		if in == at {
+			break
+		}
+		switch y := in.(type) {
+		case *ssa.Store:
+			if y.Addr == ssa.Value(al) {
+				return r.get(fr, v)
+			}
+		case *ssa.Call:
+			call = true
+		}
+	}
+	if !call {
+		return r.get(fr, v)
+	}
+	return r.load(r.get(fr, al).(PtrV))
 }
 
 // zeroShared returns a zero value that must only live in registers (values in
